@@ -34,8 +34,8 @@ pub fn member(pos: usize, m: usize, d: usize, tag: &str) -> Member {
         seed: None,
     };
     let ctx = contexts()[pos % 6];
-    let built = build_cached::<F>(&cfg, &wit).unwrap();
-    let proof = lib_prove(&built, &ctx, &mut HRng::chacha(100 + pos as u64)).unwrap();
+    let built = build_cached::<F>(&cfg, &wit).honest();
+    let proof = lib_prove(&built, &ctx, &mut HRng::chacha(100 + pos as u64)).honest();
     let mut rp = ref_proof_of(&proof).unwrap();
     let marker = fg::basis(&format!("weight-marker:{}:{}", tag, pos));
     let marker_id = *marker.0.keys().next().unwrap();
@@ -253,8 +253,8 @@ pub fn plain_member(pos: usize, m: usize, d: usize) -> Member {
         seed: None,
     };
     let ctx = contexts()[pos % 6];
-    let built = build_cached::<F>(&cfg, &wit).unwrap();
-    let proof = lib_prove(&built, &ctx, &mut HRng::chacha(300 + pos as u64)).unwrap();
+    let built = build_cached::<F>(&cfg, &wit).honest();
+    let proof = lib_prove(&built, &ctx, &mut HRng::chacha(300 + pos as u64)).honest();
     Member {
         st: built.statement.clone(),
         rp: ref_proof_of(&proof).unwrap(),
